@@ -50,7 +50,7 @@ def gen_column(rng, t=None, n=None, small_pool=None):
     if t == 'real' and rng.random() < 0.3:
         cells = [None if c is None else float(int(c)) if math.isfinite(c) and abs(c) < 1e15 else c for c in cells]
     variants = {'bool': ['bool', 'object', 'boolean'], 'int': ['int64', 'Int64', 'int32', 'uint', 'int8'],
-                'real': ['float64', 'float32', 'Float64'], 'string': ['object', 'category', 'object'],
+                'real': ['float64', 'float32', 'Float64'], 'string': ['object', 'category', 'object', 'category+'],
                 'date': ['datetime64[ns]', 'datetime64[us]', 'datetime64[ms]', 'datetime64[s]', 'dateobj']}[t]
     variant = rng.choice(variants)
     col = {'type': t, 'cells': cells, 'variant': variant}
@@ -113,6 +113,10 @@ def to_series(col):
                                   dtype='float32' if v == 'float32' else 'float64'))
     if t == 'string':
         s = pd.Series(cells, dtype=object)
+        if v == 'category+':     # declared but unused categories (e.g. a filtered subset)
+            used = sorted(set(c for c in cells if c is not None))
+            return pd.Series(pd.Categorical(cells, categories=used + [x for x in ('zz unused', 'an-unused-long-category')
+                                                                      if x not in used]))
         return s.astype('category') if v == 'category' else s
     if v == 'dateobj':
         return pd.Series([None if c is None else c.date() for c in cells], dtype=object)
